@@ -7,6 +7,7 @@
 
 mod alloc;
 mod director;
+mod layout;
 mod node;
 mod rec;
 mod world;
@@ -19,7 +20,7 @@ use node::{Node, Pad};
 #[global_allocator]
 static A: alloc::Tracker = alloc::Tracker;
 
-fn build_flags() -> Value {
+pub fn build_flags() -> Value {
     json!({
         "fin": cfg!(feature = "fin"),
         "weak": cfg!(feature = "weak"),
@@ -36,7 +37,7 @@ fn arg_num<T: std::str::FromStr>(args: &[String], name: &str, default: T) -> T {
     arg(args, name).and_then(|v| v.parse().ok()).unwrap_or(default)
 }
 
-fn on_fresh_thread<R: Send + 'static>(f: impl FnOnce() -> R + Send + 'static) -> R {
+pub fn on_fresh_thread<R: Send + 'static>(f: impl FnOnce() -> R + Send + 'static) -> R {
     std::thread::Builder::new()
         .stack_size(1 << 20)
         .spawn(f)
@@ -360,6 +361,25 @@ fn main() {
         Some("random") => main_random(&args),
         Some("replay") => main_replay(&args),
         Some("script") => main_script(&args),
+        Some("layout") => {
+            // layout grid: one run per payload type, recorded for the contract monitor
+            let out = arg(&args, "--out").expect("--out");
+            let mut lines = Vec::new();
+            let n = layout::run_all(&mut lines);
+            let mut f = BufWriter::new(std::fs::File::create(&out).expect("create out"));
+            for l in &lines {
+                writeln!(f, "{}", l).unwrap();
+            }
+            f.flush().unwrap();
+            println!("{}", json!({"mode": "layout", "runs": n, "events": lines.len(), "build": build_flags()}));
+        }
+        Some("ptr") => {
+            // pointer tables: --in file with the JSON table printed by TLC from PtrSpec.tla
+            let inp = arg(&args, "--in").expect("--in");
+            let table: Vec<Value> = serde_json::from_str(&std::fs::read_to_string(inp).expect("read table")).expect("table json");
+            let r = on_fresh_thread(move || layout::ptr_tables(&table));
+            println!("{}", json!({"mode": "ptr", "result": r, "build": build_flags()}));
+        }
         Some("info") => println!("{}", json!({"build": build_flags(), "node_box_size": node_box_size::<()>()})),
         _ => {
             eprintln!("usage: ccverif random|replay|info ...");
